@@ -7,7 +7,7 @@ from hypothesis import strategies as st
 
 from vf import refmodel as R
 
-SCALES = [0.0, 0.05, 0.5, 2.0, 8.0, 30.0]
+SCALES = [0.0, 0.05, 0.5, 0.5, 2.0, 2.0, 8.0, 8.0, 30.0]
 BIAS_SCALES = [0.0, 0.05, 0.5, 0.5, 2.0, 2.0, 8.0, 8.0, 30.0, 30.0]  # zero biases stay reachable but rare
 TYPES = ["positive", "complex", "density"]
 
